@@ -126,8 +126,11 @@ def collect(es, seen, index):
     return new
 
 
-def instantiate(quants, ground, rounds=2, max_inst=4000):
-    """-> list of ground instances of the quantified hypotheses and of definitional unfoldings"""
+ROUNDS = [2]
+
+
+def instantiate(quants, ground, rounds=None, max_inst=4000):
+    rounds = rounds or ROUNDS[0]
     insts = []
     seen_inst = set()
     qinfo = []
